@@ -109,6 +109,16 @@ typename dis_interval<Number>::list_intervals_t dis_interval<Number>::normalize(
   for (unsigned int i = 0; i < l.size(); ++i) {
     ikos::interval<Number> intv = l[i];
 
+    // This test must come before the test for duplicates because
+    // prev is initially top (to mean that there is no previous
+    // interval).
+    if (intv.is_top()) {
+      CRAB_LOG("disint", crab::outs() << "-- Normalize: top interval"
+                                      << "\n");
+      is_bottom = false;
+      return typename dis_interval<Number>::list_intervals_t();
+    }
+
     if (prev == intv) {
       CRAB_LOG("disint", crab::outs() << "-- Normalize: duplicate"
                                       << "\n");
@@ -120,13 +130,6 @@ typename dis_interval<Number>::list_intervals_t dis_interval<Number>::normalize(
                                       << "\n");
       bottoms++;
       continue;
-    }
-
-    if (intv.is_top()) {
-      CRAB_LOG("disint", crab::outs() << "-- Normalize: top interval"
-                                      << "\n");
-      is_bottom = false;
-      return typename dis_interval<Number>::list_intervals_t();
     }
 
     if (!prev.is_top()) {
